@@ -42,8 +42,8 @@ type c19Case struct {
 	SerialNo int64  `json:"serial"`   // randomises key material / serials
 }
 
-var c19ClientPeers = []string{"A_leaf", "A_via_intermediate", "self_signed", "B_leaf", "A_expired", "A_not_yet_valid", "A_server_auth_only", "none"}
-var c19ServerPeers = []string{"A_leaf", "A_via_intermediate", "A_other_name", "self_signed", "B_leaf", "A_expired", "A_client_auth_only"}
+var c19ClientPeers = []string{"A_leaf", "A_via_intermediate", "self_signed", "B_leaf", "A_expired", "A_expired_90s_ago", "A_not_yet_valid", "A_valid_in_90s", "A_server_auth_only", "none"}
+var c19ServerPeers = []string{"A_leaf", "A_via_intermediate", "A_other_name", "self_signed", "B_leaf", "A_expired", "A_expired_90s_ago", "A_valid_in_90s", "A_client_auth_only"}
 
 type c19CA struct {
 	cert *x509.Certificate
@@ -175,6 +175,10 @@ func c19PeerCred(p *c19PKI, c c19Case) (cred *tls.Certificate, chainOK bool) {
 		return mk(p.caB, c19LeafOpt{eku: both, dns: name}), false
 	case "A_expired":
 		return mk(p.caA, c19LeafOpt{eku: both, dns: name, notBefore: time.Now().Add(-48 * time.Hour), notAfter: time.Now().Add(-24 * time.Hour)}), false
+	case "A_expired_90s_ago":
+		return mk(p.caA, c19LeafOpt{eku: both, dns: name, notBefore: time.Now().Add(-time.Hour), notAfter: time.Now().Add(-90 * time.Second)}), false
+	case "A_valid_in_90s":
+		return mk(p.caA, c19LeafOpt{eku: both, dns: name, notBefore: time.Now().Add(90 * time.Second), notAfter: time.Now().Add(time.Hour)}), false
 	case "A_not_yet_valid":
 		return mk(p.caA, c19LeafOpt{eku: both, dns: name, notBefore: time.Now().Add(24 * time.Hour), notAfter: time.Now().Add(48 * time.Hour)}), false
 	case "A_server_auth_only":
@@ -315,7 +319,7 @@ func c19Fail(t interface{ Fatalf(string, ...any) }, st *vfshared.Stats, part str
 	t.Fatalf("C19 violated: %s (replay %s)", msg, p)
 }
 
-const c19Rule = "cells = role (listener judging a client | proxy-as-client judging a server) x peer credential class (valid A leaf, A via intermediate, self-signed, foreign CA, expired, not yet valid, wrong extended key usage, other name, none) x verification on/off x own certificate with/without (client role) x CA bundle (A | A + unrelated CA) x TLS 1.2/1.3 x RSA/ECDSA x client that sends its certificate regardless of the CA hint | stock client; fresh random key material per case; real GetServerTLSConfig/GetClientTLSConfig and crypto/tls over loopback; oracle: connection completed (both handshakes + application byte round trip) iff the peer presents a currently valid chain to the configured CA with the right usage (and name), or verification is explicitly disabled; CA bundles without a CA certificate or unreadable must fail construction; non-trivial = negative cell with a syntactically fine certificate (self-signed, foreign CA, expired, not yet valid, wrong usage, other name) under verification; distinct = distinct cells"
+const c19Rule = "cells = role (listener judging a client | proxy-as-client judging a server) x peer credential class (valid A leaf, A via intermediate, self-signed, foreign CA, expired a day / 90 s ago, valid from tomorrow / in 90 s, wrong extended key usage, other name, none) x verification on/off x own certificate with/without (client role) x CA bundle (A | A + unrelated CA) x TLS 1.2/1.3 x RSA/ECDSA x client that sends its certificate regardless of the CA hint | stock client; fresh random key material per case; real GetServerTLSConfig/GetClientTLSConfig and crypto/tls over loopback; oracle: connection completed (both handshakes + application byte round trip) iff the peer presents a currently valid chain to the configured CA with the right usage (and name), or verification is explicitly disabled; CA bundles without a CA certificate or unreadable must fail construction; non-trivial = negative cell with a syntactically fine certificate (self-signed, foreign CA, expired, not yet valid, wrong usage, other name) under verification; distinct = distinct cells"
 
 func c19Cells() []c19Case {
 	var out []c19Case
@@ -343,7 +347,7 @@ func c19Nontrivial(c c19Case) bool {
 		return false
 	}
 	switch c.Peer {
-	case "self_signed", "B_leaf", "A_expired", "A_not_yet_valid", "A_server_auth_only", "A_client_auth_only", "A_other_name":
+	case "self_signed", "B_leaf", "A_expired", "A_expired_90s_ago", "A_valid_in_90s", "A_not_yet_valid", "A_server_auth_only", "A_client_auth_only", "A_other_name":
 		return !c.Hint
 	}
 	return false
